@@ -801,3 +801,25 @@ CONTRACTS[CI + 'CliffordGate.independent_from'] = dict(
     ensures=['iff(result, forall(i, 0, len(self.qubits), forall(j, 0, len(other_gate.qubits), self.qubits[i] != other_gate.qubits[j])))'],
     modifies=[], returns='bool',
 )
+
+# ------------------------------------------------------------------ C14: the observables of a measurement layer are Z on its qubits, sign +
+MLAYER_Q = {'cls': 'MeasureLayer', 'fields': {'qubits': 'int1', 'N': 'int'}}
+CONTRACTS[CI + 'MeasureLayer.obs_gs_ps'] = dict(
+    params=[('self', MLAYER_Q)],
+    requires=['self.N >= 0', 'forall(k, 0, len(self.qubits), 0 <= self.qubits[k] < self.N)'],
+    ensures=['rows(result[0]) == len(self.qubits)', 'cols(result[0]) == 2 * self.N', 'len(result[1]) == len(self.qubits)',
+             'forall(i, 0, len(self.qubits), forall(c, 0, 2 * self.N, result[0][i][c] == b2i(c == 2 * self.qubits[i] + 1)))',
+             'forall(i, 0, len(self.qubits), result[1][i] == 0)'],
+    modifies=[], returns=('int2 fresh', 'int1 fresh'),
+    loops={0: dict(var='i', invariant=['rows(gs) == len(self.qubits)', 'cols(gs) == 2 * self.N', 'len(ps) == len(self.qubits)',
+                                       'forall(k, 0, len(self.qubits), ps[k] == 0)',
+                                       'forall(k, 0, i, forall(c, 0, 2 * self.N, gs[k][c] == b2i(c == 2 * self.qubits[k] + 1)))',
+                                       'forall(k, i, len(self.qubits), forall(c, 0, 2 * self.N, gs[k][c] == 0))'])},
+)
+
+CONTRACTS[ST + 'one_state'] = dict(
+    params=[('N', 'int')], requires=['N >= 0'],
+    # |1...1>: stabilizers -Z_i (all phase indicators 2), same strings as the zero state
+    ensures=_zs[:4] + ['forall(i, 0, 2 * N, result.ps[i] == 2)', 'result.r == 0', 'gram(result.gs, N)', 'bits2(result.gs)'],
+    modifies=[], returns=STATE,
+)
